@@ -42,9 +42,17 @@ def make_case(rng, nested=False, consumer=False, midplain=False, large=False):
             logs[(T1, p)] = [("wrap", kind, msgs[-1][1], msgs)]
     spec = {"brokers": brokers(2), "topics": {T1: [(rng.randint(1, 2) if not large else 1) for _ in range(nparts)], b"t2": [1]},
             "logs": logs, "order": rng.choice([None, "reversed"])}
+    two_topics = consumer and not large and rng.random() < 0.5
+    if two_topics:
+        # a second assigned topic, led by brokers that also lead partitions of the first: one reply then carries sets of two topics
+        spec["topics"][b"t2"] = [rng.randint(1, 2) for _ in range(rng.randint(1, 2))]
+        for p in range(len(spec["topics"][b"t2"])):
+            logs[(b"t2", p)] = [("plain", o, None if o % 2 else b"k2", b"second-topic-%d-%d" % (p, o)) for o in range(rng.randint(1, 3))]
     ops = boot_ops(spec)
     if consumer:
-        ops += [T("consumer_build", [T("from_client"), [T("with_topic", [T1]), T("with_fallback_offset", [T("earliest")])]]), T("poll")]
+        topics_ = [T("with_topic", [T1])] + ([T("with_topic", [b"t2"])] if two_topics else [])
+        rng.shuffle(topics_)
+        ops += [T("consumer_build", [T("from_client"), topics_ + [T("with_fallback_offset", [T("earliest")])]]), T("poll")]
         reread = T("reread_poll")
     else:
         ops.append(T("fetch_messages", [[fp(T1, p, kproto.flatten_entries(logs[(T1, p)])[0][0]) for p in range(nparts)]]))
@@ -63,7 +71,7 @@ def make_case(rng, nested=False, consumer=False, midplain=False, large=False):
                                    T("produce_messages", [1, 1, 0, [pm(b"t2", 0, None, rand_bytes(rng, 1, 50))]])]))
         ops.append(reread)
     ops += [T("churn", [300]), reread, T("drop_results"), T("churn", [50])]
-    return {"cluster": spec, "ops": ops, "meta": {"first": first, "nested": nested, "consumer": consumer, "midplain": midplain, "large": large}}
+    return {"cluster": spec, "ops": ops, "meta": {"first": first, "nested": nested, "consumer": consumer, "midplain": midplain, "large": large, "two_topics": two_topics}}
 
 
 def gen(rng, tier):
@@ -124,5 +132,5 @@ def nontrivial(case, recs):
 
 def stats(case, recs):
     m = case["meta"]
-    return {"nested:%s" % m["nested"]: 1, "reply_over_64KiB:%s" % bool(m.get("large")): 1, "via:%s" % ("poll" if m["consumer"] else "fetch_messages"): 1,
+    return {"nested:%s" % m["nested"]: 1, "reply_over_64KiB:%s" % bool(m.get("large")): 1, "assigned_topics:%d" % (2 if m.get("two_topics") else 1): 1, "via:%s" % ("poll" if m["consumer"] else "fetch_messages"): 1,
             "moves": sum(1 for o in case["ops"] if o.name == "move_results")}
